@@ -4,6 +4,38 @@ use std::collections::BTreeMap;
 use std::fmt::Write as _;
 use std::io::Write;
 
+// ---- watchdog: a call into the code under test that never returns (e.g. a compaction that loops
+// for ever) must end the run with a report, not hang the check
+static BEAT: std::sync::atomic::AtomicU64 = std::sync::atomic::AtomicU64::new(0);
+static DOING: std::sync::Mutex<String> = std::sync::Mutex::new(String::new());
+static START: std::sync::OnceLock<std::time::Instant> = std::sync::OnceLock::new();
+
+fn beat() {
+    let t = START.get_or_init(std::time::Instant::now).elapsed().as_secs();
+    BEAT.store(t, std::sync::atomic::Ordering::Relaxed);
+}
+
+/// records what the harness is about to ask of the code under test (shown if it never returns)
+pub fn doing(what: &str) {
+    *DOING.lock().unwrap() = what.to_string();
+    beat();
+}
+
+/// exits with status 97 and a `HANG|` line once nothing has been written for `limit` seconds
+pub fn start_watchdog(limit: u64) {
+    beat();
+    std::thread::spawn(move || loop {
+        std::thread::sleep(std::time::Duration::from_secs(1));
+        let now = START.get_or_init(std::time::Instant::now).elapsed().as_secs();
+        let last = BEAT.load(std::sync::atomic::Ordering::Relaxed);
+        if now.saturating_sub(last) > limit {
+            let what = DOING.lock().map(|d| d.clone()).unwrap_or_default();
+            eprintln!("HANG|no progress for {limit} s; the last request to the code under test did not return: {what}");
+            std::process::exit(97);
+        }
+    });
+}
+
 pub struct Out {
     w: std::io::BufWriter<std::fs::File>,
     pub lines: u64,
@@ -29,9 +61,15 @@ impl Out {
     }
     pub fn line(&mut self, s: &str) {
         debug_assert!(!s.contains('\n'));
+        beat();
         self.w.write_all(s.as_bytes()).unwrap();
         self.w.write_all(b"\n").unwrap();
         self.lines += 1;
+    }
+    /// makes what has been written so far visible in the ops file (used before a request that
+    /// may never return, so that the report of a hang carries the history that led to it)
+    pub fn flush(&mut self) {
+        let _ = self.w.flush();
     }
     pub fn comment(&mut self, s: &str) {
         self.w.write_all(b"# ").unwrap();
@@ -49,6 +87,7 @@ impl Out {
         self.count("cases");
     }
     pub fn count(&mut self, key: &str) {
+        beat();
         *self.counters.entry(key.to_string()).or_insert(0) += 1;
     }
     pub fn add(&mut self, key: &str, n: u64) {
